@@ -220,13 +220,52 @@ Section C01.
       match type of HE with (bind ?X _ = _) => destruct X end; inversion HE. reflexivity.
   Qed.
 
-  Lemma const_ty_conf_eq t c x : const_ty t = Some c -> conf_ord E x t = true -> x = c.
+  Lemma omapM_nt_eq {B} (g: sfield -> option B) (q: sfield -> B -> bool) fds (l cs: list B) :
+    (forall f x c, q f x = true -> g f = Some c -> x = c) -> nt_all q fds l = true -> omapM g fds = Some cs -> l = cs.
   Proof.
-    intros Hc HC. rewrite conf_unfold in HC.
-    destruct t as [ | | | | | | | | | | | | [|t1 ts1] | | t' | | | ]; try discriminate Hc; inversion Hc; subst.
-    - apply is_none_eq0. exact HC.
-    - destruct x as [ | | | | | | | [|x0 l] | | | | | | | ]; try discriminate HC. reflexivity.
+    intros Hq. revert fds cs. induction l as [|x l IH]; intros fds cs HA Hm.
+    - destruct fds; [inversion Hm; reflexivity | discriminate HA].
+    - destruct fds as [|f r]; [discriminate HA|]. cbn [nt_all] in HA. apply andb_prop in HA. destruct HA as [Hx HA].
+      cbn [omapM] in Hm. destruct (g f) as [c|] eqn:Eg; [|discriminate Hm].
+      destruct (omapM g r) as [ys|] eqn:Er; [|discriminate Hm]. inversion Hm; subst.
+      rewrite (Hq f x c Hx Eg), (IH r ys HA Er). reflexivity.
   Qed.
+
+  Lemma omapM_tuple_eq (g: sty -> option pv) ts (l cs: list pv) :
+    Forall (fun t => forall c x, g t = Some c -> conf_ord E x t = true -> x = c) ts -> omapM g ts = Some cs ->
+    (fix go (ts: list sty) (l: list pv) {struct l} : bool :=
+       match ts, l with
+       | [], [] => true
+       | t' :: ts', x :: l' => conf_ord E x t' && go ts' l'
+       | _, _ => false end) ts l = true -> l = cs.
+  Proof.
+    intros HF. revert l cs. induction HF as [|t1 ts H1 Hts IH]; intros l cs Em HC.
+    - inversion Em. destruct l; [reflexivity | discriminate HC].
+    - destruct l as [|x l]; [discriminate HC|]. apply andb_prop in HC. destruct HC as [Cx Cl].
+      cbn [omapM] in Em. destruct (g t1) as [c1|] eqn:E1; [|discriminate Em].
+      destruct (omapM g ts) as [cs1|] eqn:E2; [|discriminate Em]. inversion Em.
+      rewrite (H1 c1 x eq_refl Cx), (IH l cs1 eq_refl Cl). reflexivity.
+  Qed.
+
+  (* a conforming value of a constant type is that constant *)
+  Lemma const_ty_conf_eq_n n : forall t c x, const_ty_n E n t = Some c -> conf_ord E x t = true -> x = c.
+  Proof.
+    induction n as [|n IHn].
+    all: induction t as [ | | | | | | m' | k' | e' | t' IHt | fr' t' IHt | t' IHt | ts IHts | kt IHkt vt IHvt | t' IHt | c' | c' | c' ]
+      using sty_ind'; intros c x Hc HC; rewrite const_ty_n_unfold in Hc; try discriminate Hc; rewrite conf_unfold in HC.
+    all: try (inversion Hc; apply is_none_eq0; exact HC).
+    all: try (match type of Hc with (match omapM ?g ?l with _ => _ end = _) => destruct (omapM g l) as [cs|] eqn:Em end; [|discriminate Hc];
+              inversion Hc; destruct x; try discriminate HC; f_equal; apply (omapM_tuple_eq _ _ _ _ IHts Em HC)).
+    destruct (sfind E KNamed c') as [k|] eqn:Ef; [|discriminate Hc].
+    destruct (has_default (sc_fields k)); [discriminate Hc|].
+    match type of Hc with (match ?X with _ => _ end = _) => destruct X as [cs|] eqn:Em end; [|discriminate Hc].
+    inversion Hc. destruct x; try discriminate HC. apply andb_prop in HC. destruct HC as [Hn HC].
+    apply String.eqb_eq in Hn. subst. f_equal.
+    refine (omapM_nt_eq _ _ _ _ _ _ HC Em). intros f xx cc Hq Hg. apply (IHn _ _ _ Hg Hq).
+  Qed.
+
+  Lemma const_ty_conf_eq t c x : const_ty E t = Some c -> conf_ord E x t = true -> x = c.
+  Proof. apply const_ty_conf_eq_n. Qed.
 
   Lemma dec_key_id k kt : key_id kt = true -> conf_ord E k kt = true -> ref_dec E P k kt = Ok k /\ ref_enc E P k kt = Ok k.
   Proof.
@@ -460,7 +499,7 @@ Section C01.
       match type of HE with (bind ?X _ = _) => destruct X as [R|] eqn:Em end; [|discriminate HE]. inversion HE; subst w0. clear HE.
       rewrite ref_dec_unfold, Ef. cbv zeta.
       pose proof (names_nodup_td_order _ Hnn) as Hno.
-      assert (Hgo: td_go (fun f dx => dx (sf_ty f)) konst_t XKeyError
+      assert (Hgo: td_go (fun f dx => dx (sf_ty f)) (konst_t E) XKeyError
                      (map (fun p : pv * pv => match p with (key, x) => (key, ref_dec E P x) end) R) (td_order (sc_fields k)) = Ok kvs);
         [|rewrite Hgo; reflexivity].
       rewrite forallb_forall in HCf, Hll.
@@ -490,7 +529,7 @@ Section C01.
           { destruct (sf_opt f); cbv beta iota in Hsome; injection Hsome as Hy'; exact Hy'. }
           destruct (Hent f x Hf' El y Hy) as [Hd Cx].
           destruct (sf_opt f); [rewrite Hd; reflexivity|].
-          destruct (konst_t f) as [c|] eqn:Ek; [|rewrite Hd; reflexivity].
+          destruct ((konst_t E) f) as [c|] eqn:Ek; [|rewrite Hd; reflexivity].
           rewrite (const_ty_conf_eq _ c x Ek Cx). reflexivity.
     - (* dataclass *)
       apply andb_prop in HC. destruct HC as [Hc HC]. apply String.eqb_eq in Hc. subst c'.
@@ -530,7 +569,7 @@ Section C01.
                     ref_enc E P x (sf_ty f) = Ok y -> ref_dec E P y (sf_ty f) = Ok x).
       { intros f x y Hf Hx Hq Hy. rewrite forallb_forall in Hll, HVl.
         apply (Forall_In _ _ IHl x Hx (sf_ty f) y Hq (Hll f Hf) (HVl x Hx) Hy). }
-      rewrite (nt_items_rt _ _ (fun f y => ref_dec E P y (sf_ty f)) _ _ konst_t
+      rewrite (nt_items_rt _ _ (fun f y => ref_dec E P y (sf_ty f)) _ _ (konst_t E)
                  (nt_exhausted (has_default (sc_fields k))) _ l r HC Hr Em). reflexivity.
   Qed.
 End C01.
